@@ -82,6 +82,9 @@ ObjAttr(oname, attr) ==
     \* attributes named like pymbolic's own instance attributes
     ELSE IF oname = "o1" /\ attr = "aggregate" THEN IntV(7)
     ELSE IF oname = "o1" /\ attr = "name" THEN IntV(3)
+    \* attributes whose names begin with underscores are attributes like any other
+    ELSE IF oname = "o1" /\ attr = "_u" THEN IntV(9)
+    ELSE IF oname = "o1" /\ attr = "__w__" THEN IntV(-4)
     ELSE IF oname = "o2" /\ attr = "p" THEN IntV(-2)
     ELSE Err("AttributeError")
 
